@@ -238,17 +238,17 @@ fn parse_hunk_header(line: &str) -> Option<ParsedHunkHeader> {
         let line_numbers_and_hunk_lengths = HUNK_HEADER_FILE_COORDINATE_REGEX
             .captures_iter(file_coordinates)
             .map(|caps| {
-                (
-                    caps[1].parse::<usize>().unwrap(),
+                Some((
+                    caps[1].parse::<usize>().ok()?,
                     caps.get(2)
                         .map(|m| m.as_str())
                         // Per the specs linked above, if the hunk length is absent then it is 1.
                         .unwrap_or("1")
                         .parse::<usize>()
-                        .unwrap(),
-                )
+                        .ok()?,
+                ))
             })
-            .collect();
+            .collect::<Option<Vec<_>>>()?;
         let code_fragment = caps[2].to_string();
         Some(ParsedHunkHeader {
             code_fragment,
